@@ -171,6 +171,8 @@ package grpctunnel
 //@ func newReceiver
 //@   requires initialWindowSize == 65536
 //@   requires measure != nil && updateWindow != nil
+//@   at return#1
+//@     assert[C05,C06] @ownwindow param2 == 65536 && rcvr.currentWindow == param2
 //@   assigns nothing
 //@   ensures fresh(result)
 
@@ -258,6 +260,7 @@ package grpctunnel
 //@   requires sendFunc != nil && ctx != nil
 //@   at return#1
 //@     assert[C05] @oneslot chancap(s.windowUpdates) == 1 && atomicLoad(s.currentWindow) == initialWindowSize && !isClosed(s.windowUpdates)
+//@     assert[C05,C06] @peerwindow atomicLoad(s.currentWindow) == param1 && s.ctx == param0
 //@   assigns nothing
 //@   ensures fresh(result)
 //@   ensures[C11] result is *defaultSender
@@ -1104,6 +1107,7 @@ package grpctunnel
 //@     assert[C13] @once !old(st.halfClosed) && st.halfClosed
 //@   ensures[C13] @atmostone count("carrierSend") <= 1
 //@   ensures[C13] @again old(st.halfClosed) ==> count("carrierSend") == 0
+//@   ensures[C02,C07] @finished count("carrierSend") == 0 && !old(st.halfClosed) ==> atomicLoad(st.done) != nil && result == atomicLoad(st.done).error
 //@   assigns nothing
 //@   nopanic[C09]
 
@@ -1540,6 +1544,14 @@ package grpctunnel
 //@   nopanic[C09,C12]
 
 //@ func (*TunnelServiceHandler).keyIsReady
+//@   ghost rdy bool = false
+//@   at call ready#1
+//@     assert[C12] @rightkey has(s.reverseByKey, key) ==> true
+//@   at aftercall ready#1
+//@     ghost rdy = result
+//@   ensures[C12] @asks count("call:ready") <= 1
+//@   ensures[C12] @answer count("call:ready") == 1 ==> result == rdy
+//@   ensures[C12] @absent count("call:ready") == 0 ==> !result
 //@   locks s.mu, any reverseChannels.mu
 //@   assigns nothing
 //@   nopanic[C09,C12]
@@ -1557,6 +1569,7 @@ package grpctunnel
 //@     assert[C12,C14] @samekey gone && arg1 == ch
 //@   ensures[C12,C14] @pairing count("call:remove") == 2 ==> gone
 //@   ensures[C12]     @notthere !gone ==> count("call:remove") == 1
+//@   ensures[C12,C14] @keyedlookup gone ==> count("ext:Lock") == 1
 //@   locks s.mu, s.reverse.mu, any reverseChannels.mu
 //@   assigns nothing
 //@   nopanic[C09,C12]
@@ -1820,7 +1833,7 @@ package grpctunnel
 //@     assert[C08] @handlers arg4 == s.handlers
 //@     assert[C15] @wrapped  arg0 is *threadSafeOpenReverseTunnelClient
 //@   at call addInstance#1
-//@     assert[C04,C10] @instance arg0 == s && arg1 is *threadSafeOpenReverseTunnelClient
+//@     assert[C04,C10,C15] @instance arg0 == s && arg1 is *threadSafeOpenReverseTunnelClient
 //@   ensures[C04]     @cause    count("call:serveTunnel") == 1 && result1 != nil ==> result1 == serveErr
 //@   ensures[C10] @done     added == nil && count("call:serveTunnel") == 1 ==> count("wg.Done") == 1
 //@   ensures[C10] @notadded count("call:serveTunnel") == 0 ==> count("wg.Done") == 0 && !started
@@ -1858,7 +1871,7 @@ package grpctunnel
 //@ func (*noFlowControlReceiver).close$1
 //@   requires r != nil
 //@   at close#1
-//@     assert[C04,C09] @wakefirst !held(r.ingestMu)
+//@     assert[C03,C04,C09,C15] @wakefirst !held(r.ingestMu)
 //@   at close#2
 //@     assert[C09] @underlock held(r.ingestMu)
 //@   assigns chan(r.closed), chan(r.ch)
